@@ -5458,7 +5458,7 @@ class CodegenCtx:
 
     def _generate_buflike_index_expr(self, out_expr: OutputStorage, index_expr: str):
         if out_expr.holds_a(OutputStorageType.RAW):
-            return f"((uint8_t *)state->c.{out_expr.name})[{index_expr}]"
+            return f"((uint8_t *)&state->c.{out_expr.name})[{index_expr}]"
         else:
             return f"state->c.{out_expr.name}[{index_expr}]"
 
